@@ -5,14 +5,15 @@
 # the property's quick check says about the patched tree.
 HERE="$(cd "$(dirname "$0")/.." && pwd)"
 prop="$1"; name="$2"; chk="${3:-$1}"
-SRC=/tmp/seed/$prop/seeded
+ROOT="${SEED_ROOT:-/tmp/seed}"
+SRC=$ROOT/$prop/seeded
 [ -f "$SRC/patch.diff" ] && [ -f "$SRC/demo.py" ] || { echo "missing deliverables in $SRC"; exit 2; }
 D="$HERE/seeded/$name"; mkdir -p "$D"
 cp "$SRC/patch.diff" "$D/patch.diff"; cp "$SRC/demo.py" "$D/demo.py"; [ -f "$SRC/notes.md" ] && cp "$SRC/notes.md" "$D/notes.md"
 WT=/tmp/verif_wt_ing_$$
 git -C /repo worktree add --detach "$WT" HEAD >/dev/null 2>&1 || exit 2
 cp /repo/src/bluesky/_version.py "$WT/src/bluesky/_version.py"
-mkdir -p "$WT/seeded"; sed "s#/tmp/seed/$prop#$WT#g" "$D/demo.py" > "$WT/seeded/demo.py"
+mkdir -p "$WT/seeded"; sed "s#$ROOT/$prop#$WT#g" "$D/demo.py" > "$WT/seeded/demo.py"
 run_demo() { (cd "$WT" && PYTHONPATH="$WT/src" OPHYD_CONTROL_LAYER=dummy timeout 600 /venv/bin/python seeded/demo.py > "$WT/demo.out" 2>&1; echo $?); }
 rc0=$(run_demo); tail0=$(tail -2 "$WT/demo.out" | tr '\n' ' ' | cut -c1-200)
 if git -C "$WT" apply "$D/patch.diff"; then
